@@ -274,6 +274,18 @@ def mk():
     return Base()
 
 
+def first(tree):
+    return descend(tree)
+
+
+def descend(tree):
+    if tree:
+        found = first(tree)
+    else:
+        found = Base()
+    return found
+
+
 val = mk()
 counter = 0
 for step in [1, 2]:
@@ -321,6 +333,7 @@ print(x.mattr, y.binst, m1.val.battr, z, w.binst, m1.item.minst)
 base = m1.second.Base()
 print(base.shared.upper, x.shared.battr, base.bmeth().shared, x.mother().shared, m1.val.shared.lower)
 print(M.mattr, m1.Mid.mattr, m1.Mid.mmeth, m1.second.Base.battr, M().mattr, x.mattr)
+print(m1.second.first(None).battr, m1.second.descend(None).binst, m1.second.first(x).bmeth)
 '''
 PK_INIT = '''from .b import bval
 from . import b as bmod
@@ -438,6 +451,8 @@ def w_histories(job):
             return fresh_cache[key]
 
         def prop(ops):
+            # a history element is one request or a burst of requests at several positions of ONE line
+            ops = [o for el in ops for o in (el if isinstance(el, list) else [el])]
             project = Project([root])
             kinds = set()
             for step, op in enumerate(ops):
@@ -456,7 +471,16 @@ def w_histories(job):
         # top-level script with relative imports (4 shards)
         mods = ['m0', 'm1', 'm2'] if idx % 3 != 2 else sorted(m for m in MODS if HPOS[m])
         op = st.tuples(st.sampled_from(['lint', 'assist', 'location', 'location']), st.sampled_from(mods), st.integers(0, 200))
-        core.hyp_search(sh, prop, st.lists(op, min_size=2, max_size=14), seed, n, shrink=True, max_rounds=3)
+        # bursts: related expressions usually share a line (print(a.x, f().y, ...)); asking several of its positions in a
+        # generated order right after each other is what exposes memos shared between neighbouring evaluations
+        by_line = {}
+        for m in mods:
+            for i, p_ in enumerate(HPOS[m]):
+                by_line.setdefault((m, p_[0]), []).append(i)
+        rich = sorted(k for k, v in by_line.items() if len(v) >= 4)
+        burst = st.sampled_from(rich).flatmap(lambda k: st.lists(
+            st.tuples(st.sampled_from(['assist', 'location']), st.just(k[0]), st.sampled_from(by_line[k])), min_size=2, max_size=5).map(list))
+        core.hyp_search(sh, prop, st.lists(st.one_of(op, op, burst), min_size=2, max_size=12), seed, n, shrink=True, max_rounds=3)
     finally:
         shutil.rmtree(root, ignore_errors=True)
     return sh.result()
